@@ -74,11 +74,13 @@ def fnvStep (h : BitVec 128) (b : UInt8) : BitVec 128 :=
 /-- `fnv1a_128` -/
 def fnv1a128 (bs : Bytes) : BitVec 128 := bs.foldl fnvStep fnvOffsetBasis
 
-/-- nibble `i` (0 = most significant) of a 128-bit value as an upper-case hex digit: `{hash:032X}` -/
-def hashNibble (h : BitVec 128) (i : Nat) : UInt8 :=
-  hexDigit (UInt8.ofNat ((h >>> (4 * (31 - i))).toNat % 16))
+/-- `k` upper-case hex digits of `n`, most significant first, zero padded: `{n:0kX}` (for `n < 16^k`) -/
+def hexDigitsN : Nat → Nat → Bytes
+  | 0, _ => []
+  | k + 1, n => hexDigitsN k (n / 16) ++ [hexDigit (UInt8.ofNat (n % 16))]
 
-def hashHex (h : BitVec 128) : Bytes := (List.range 32).map (hashNibble h)
+/-- `{hash:032X}` -/
+def hashHex (h : BitVec 128) : Bytes := hexDigitsN 32 h.toNat
 
 /-- `format!("_H{hash:032X}")` -/
 def hashSuffix (h : BitVec 128) : Bytes := 95 :: 72 :: hashHex h
